@@ -168,7 +168,7 @@ pub fn %s(t: Thing) -> Thing { t }
 """
 
 
-def make_prec_sandbox(root, file_settings):
+def make_prec_sandbox(root, file_settings, delivery="tauri_conf"):
     for rel, cmd in (("src-tauri", "cmd_default"), ("projA", "cmd_a"), ("projB", "cmd_b")):
         rustgen.write_project(root, {rel + "/src/lib.rs": PROJ_SRC % cmd})
     tg = {}
@@ -184,6 +184,12 @@ def make_prec_sandbox(root, file_settings):
             tg[m[s]] = v
         else:
             tg[m[s]] = (v == "true")
+    if delivery == "standalone":
+        # a stand-alone configuration file handed over with -c: settings the file does not mention are simply absent
+        sk = {"projectPath": "project_path", "outputPath": "output_path", "validationLibrary": "validation_library", "verbose": "verbose", "force": "force"}
+        with open(os.path.join(root, "typegen.json"), "w") as f:
+            json.dump({sk[k]: v for k, v in tg.items()}, f, indent=2)
+        return
     doc = {"productName": "demo", "plugins": {"shell": {"open": True}}}
     if tg:
         doc["plugins"]["typegen"] = tg
@@ -207,10 +213,10 @@ def flags_args(flags):
     return a
 
 
-def observe_prec(root, flags, filev):
-    make_prec_sandbox(root, filev)
+def observe_prec(root, flags, filev, delivery="tauri_conf"):
+    make_prec_sandbox(root, filev, delivery)
     before = pipeline.tree_hashes(root)
-    args = ["generate"] + flags_args(flags)
+    args = ["generate"] + flags_args(flags) + (["-c", "typegen.json"] if delivery == "standalone" else [])
     r1 = runner.cli(args, root)
     after1 = pipeline.tree_hashes(root)
     rejected = r1.rc != 0
@@ -276,12 +282,23 @@ def part_b(d, tier, seed):
     allc = combos + rej
 
     def work(ic):
-        i, c = ic
-        o = observe_prec(os.path.join(d, "prec-%d" % i), c["flags"], c["file"])
-        return {"event": "Precedence", "case": "prec%d" % i, "flags": c["flags"], "file": c["file"],
+        i, (c, delivery) = ic
+        o = observe_prec(os.path.join(d, "prec-%d" % i), c["flags"], c["file"], delivery)
+        return {"event": "Precedence", "case": "prec%d/%s" % (i, delivery), "flags": c["flags"], "file": c["file"], "delivery": delivery,
                 "rejected": o["rejected"], "mutated": o["mutated"], "observed": o["observed"]}
+    # the file settings reach the tool through plugins.typegen of a discovered tauri.conf.json or through a stand-alone
+    # file given with -c (where an unmentioned setting is ABSENT, not defaulted): every case of the deterministic
+    # families both ways, the sampled rest alternating
+    ndet = len(allc) - len(rej) - (200 if tier == "quick" else 0)
+    jobs = []
+    for i, c in enumerate(allc):
+        if tier == "quick" and i < max(ndet, 0):
+            jobs.append((c, "tauri_conf"))
+            jobs.append((c, "standalone"))
+        else:
+            jobs.append((c, "standalone" if i % 2 else "tauri_conf"))
     with ThreadPoolExecutor(max_workers=12) as ex:
-        evs = list(ex.map(work, enumerate(allc)))
+        evs = list(ex.map(work, enumerate(jobs)))
     return evs, total, len(rej)
 
 
